@@ -10,7 +10,10 @@ stdin : {"cases": [{"idx": [names], "cols": [[cname, [ints]], ...], "queries": [
             | ["range", lo, hi, col] | ["slice", lo, hi] | ["none"]
         optional per case  "history": [h, ...] run on ONE further table object:
         h = {"sel": q} | {"setcell": [i, value]} | {"setcellname": [text, value]} | {"setidx": [names]}
+        optional per case  "multi": {"tables": [{"idx", "cols", "flags": "default"|"ignorecase"|"sensitive"}..],
+                                     "steps": [[k, q]..]}  (all tables alive in this process, query q on table k)
 stdout: {"obs": [[{rows, names, indices, mask, chain}..]..], "ref": [[..]..], "fail": [[[msg..]..]..],
+         "mobs"/"mref"/"mfail": the same per step of "multi",
          "hobs": [[..]..], "href": [[..]..], "hfail": [[[msg..]..]..]}
 """
 import sys, json, re
@@ -21,13 +24,18 @@ POS = "_p"   # hidden column holding the original position of every row
 ERRS = (KeyError, IndexError, TypeError, ValueError, AttributeError)
 
 
+FLAGS = {"default": None, "ignorecase": re.IGNORECASE, "sensitive": 0}
+
+
 def mk_table(case):
     names = case["idx"]
     data = {"name": np.array(names, dtype=object) if names else np.array([], dtype=object)}
     for k, v in case["cols"]:
         data[k] = np.array(v, dtype=np.int64)
     data[POS] = np.arange(len(names), dtype=np.int64)
-    return xd.Table(data, col_names=["name"] + [k for k, _ in case["cols"]] + [POS], index="name")
+    fl = FLAGS[case.get("flags", "default")]
+    kw = {} if fl is None else {"regex_flags": fl}      # the public constructor argument
+    return xd.Table(data, col_names=["name"] + [k for k, _ in case["cols"]] + [POS], index="name", **kw)
 
 
 def mk_sel(s):
@@ -97,8 +105,10 @@ def inside(n, ps):
     return all(0 <= p < n for p in ps)
 
 
-def ref_select(names, cols, s):
-    """positions (table order) | ["err","KeyError"] | OUT"""
+def ref_select(names, cols, s, flags=re.IGNORECASE):
+    """positions (table order) | ["err","KeyError"] | OUT;  flags: the table's regex_flags
+    (the property speaks of the default, case-insensitive; a table built with
+    regex_flags=0 matches case-sensitively)"""
     n = len(names)
     k = s[0]
     if k == "pos":
@@ -114,7 +124,7 @@ def ref_select(names, cols, s):
             p = occurrence(names, pat, cnt)          # the text is first an exact row name
             if p is not None:
                 return [p + off] if inside(n, [p + off]) else OUT
-        rx = re.compile(pat, re.IGNORECASE)
+        rx = re.compile(pat, flags)
         ps = [i for i, x in enumerate(names) if rx.fullmatch(x)]
         if cnt is not None:
             ps = [i for i in ps if occurrence(names, names[i], cnt) == i]
@@ -155,11 +165,11 @@ def ref_select(names, cols, s):
     raise ValueError(s)
 
 
-def ref_query(names, cols, q):
+def ref_query(names, cols, q, flags=re.IGNORECASE):
     sels = [q["one"]] if "one" in q else q["tup"]
     cur = list(range(len(names)))           # absolute positions of the current view
     for s in sels:
-        r = ref_select([names[i] for i in cur], {c: [v[i] for i in cur] for c, v in cols.items()}, s)
+        r = ref_select([names[i] for i in cur], {c: [v[i] for i in cur] for c, v in cols.items()}, s, flags)
         if r == OUT or (isinstance(r, list) and r and r[0] == "err"):
             return r
         cur = [cur[i] for i in r]
@@ -324,15 +334,36 @@ def run_history(case):
     return obs, refs, fails
 
 
+def run_multi(case):
+    """several tables alive in this process, each with its own regex_flags; the
+    same selectors evaluated on them in the given interleaving"""
+    m = case.get("multi")
+    if not m:
+        return [], [], []
+    tabs = [mk_table(tc) for tc in m["tables"]]
+    obs, refs, fails = [], [], []
+    for k, q in m["steps"]:
+        tc = m["tables"][k]
+        names = list(tc["idx"])
+        cols = {c: list(v) for c, v in tc["cols"]}
+        fl = FLAGS[tc.get("flags", "default")]
+        o = observe(tabs[k], q)
+        r = ref_query(names, cols, q, re.IGNORECASE if fl is None else fl)
+        obs.append(o); refs.append(r); fails.append(judge(names, o, r, q))
+    return obs, refs, fails
+
+
 def main():
     inp = json.load(sys.stdin)
-    O, R, F, HO, HR, HF = [], [], [], [], [], []
+    O, R, F, HO, HR, HF, MO, MR, MF = [], [], [], [], [], [], [], [], []
     for case in inp["cases"]:
         o, r, f = run_case(case)
         O.append(o); R.append(r); F.append(f)
         ho, hr, hf = run_history(case)
         HO.append(ho); HR.append(hr); HF.append(hf)
-    json.dump({"obs": O, "ref": R, "fail": F, "hobs": HO, "href": HR, "hfail": HF}, sys.stdout)
+        mo, mr, mf = run_multi(case)
+        MO.append(mo); MR.append(mr); MF.append(mf)
+    json.dump({"obs": O, "ref": R, "fail": F, "hobs": HO, "href": HR, "hfail": HF, "mobs": MO, "mref": MR, "mfail": MF}, sys.stdout)
 
 
 if __name__ == "__main__":
